@@ -154,6 +154,7 @@ def thread_frames(t, file_prefixes):
 
 def state_key(sched, roots, file_prefixes, id_labels=None, extra=None, digest=True):
     c = Canon(id_labels)
+    touched = []
     me = S.current_lthread()
     parts = [("clock", sched.clock), ("cur", None if me is None else me.id,
                                       None if sched.last_local is None else sched.last_local.id)]
@@ -172,6 +173,10 @@ def state_key(sched, roots, file_prefixes, id_labels=None, extra=None, digest=Tr
                 # scheduling point (kind, info) recorded below.
                 fr.append((f.f_code.co_qualname, f.f_lineno,
                            tuple((k, c.enc(loc[k])) for k in sorted(loc))))
+                # f_locals is a snapshot dict cached on the frame: it would keep the locals' current values alive
+                # after the code rebinds or deletes them, i.e. computing a key would delay finalizers (proxy release
+                # notices, socket closes) and the execution would depend on WHERE keys were computed.  Drop the refs.
+                touched.append(loc)
         parts.append(("T", t.id, t.state, t.block_kind if t.state == "blocked" else None,
                       t.deadline if t.state == "blocked" else None, t.last_point, tuple(fr)))
     for r in roots:
@@ -179,6 +184,10 @@ def state_key(sched, roots, file_prefixes, id_labels=None, extra=None, digest=Tr
     if extra is not None:
         parts.append(c.enc(extra))
     key = tuple(parts)
+    del c
+    for loc in touched:
+        loc.clear()
+    del touched
     if digest:
         return hashlib.blake2b(repr(key).encode("utf8", "surrogatepass"), digest_size=12).digest()
     return key
